@@ -87,6 +87,9 @@ func (x *Exec) Compare(op Op, exp Op, o *Observed) []string {
 		return bad
 	}
 
+	if exp.B("or416") && o.Status == 416 && o.ErrCode() == "InvalidRange" {
+		return bad // whitespace variants: the correct 206 or a 416 (DESIGN 5.2)
+	}
 	if !matchSC(exp.I("st"), exp.S("code")) {
 		add("status/code: got %d/%q, want %d/%q", o.Status, o.ErrCode(), exp.I("st"), exp.S("code"))
 		return bad
@@ -102,6 +105,26 @@ func (x *Exec) Compare(op Op, exp Op, o *Observed) []string {
 		}
 		if cl := o.Header.Get("Content-Length"); cl != strconv.Itoa(len(want)) {
 			add("Content-Length: got %q, want %d", cl, len(want))
+		}
+	}
+	if exp.Has("slice") {
+		sl := exp.Sub("slice")
+		whole := x.Conc.Body(sl.Atoms("of"))
+		first, last := sl.I("first"), sl.I("last")
+		if first < 0 || last >= len(whole) || first > last {
+			add("specification predicted an impossible slice %d-%d of %d bytes", first, last, len(whole))
+		} else {
+			want := whole[first : last+1]
+			if !bytes.Equal(o.Body, want) {
+				add("range body: got %s, want bytes %d-%d = %s", short(o.Body), first, last, short(want))
+			}
+			if cl := o.Header.Get("Content-Length"); cl != strconv.Itoa(len(want)) {
+				add("Content-Length: got %q, want %d", cl, len(want))
+			}
+			wantCR := fmt.Sprintf("bytes %d-%d/%d", first, last, len(whole))
+			if cr := o.Header.Get("Content-Range"); cr != wantCR {
+				add("Content-Range: got %q, want %q", cr, wantCR)
+			}
 		}
 	}
 	if exp.B("nobody") && len(o.Body) != 0 {
@@ -200,12 +223,23 @@ func (x *Exec) Compare(op Op, exp Op, o *Observed) []string {
 				got = append(got, b.Name)
 			}
 			for _, b := range exp.List("buckets") {
-				want = append(want, b.(string))
+				want = append(want, toBytes(b))
 			}
-			sort.Strings(got)
+			opt := map[string]bool{}
+			for _, b := range exp.List("optBuckets") {
+				opt[toBytes(b)] = true
+			}
+			var got2 []string
+			for _, g := range got {
+				if !opt[g] {
+					got2 = append(got2, g)
+				}
+			}
+			sort.Strings(got2)
 			sort.Strings(want)
-			if strings.Join(got, ",") != strings.Join(want, ",") {
-				add("buckets: got %v, want %v", got, want)
+			if strings.Join(got2, ",") != strings.Join(want, ",") {
+				missing, extra := diffSets(want, got2)
+				add("buckets: %d listed, %d expected; missing %q, not created but listed %q", len(got2), len(want), missing, extra)
 			}
 		}
 	}
@@ -517,4 +551,26 @@ func (x *Exec) compareUploads(op Op, exp Op, o *Observed) []string {
 		add("ListMultipartUploads IsTruncated: got %v, want %v", lu.IsTruncated, exp.B("trunc"))
 	}
 	return bad
+}
+
+func diffSets(want, got []string) (missing, extra []string) {
+	w := map[string]bool{}
+	g := map[string]bool{}
+	for _, x := range want {
+		w[x] = true
+	}
+	for _, x := range got {
+		g[x] = true
+	}
+	for _, x := range want {
+		if !g[x] && len(missing) < 5 {
+			missing = append(missing, x)
+		}
+	}
+	for _, x := range got {
+		if !w[x] && len(extra) < 5 {
+			extra = append(extra, x)
+		}
+	}
+	return
 }
